@@ -119,17 +119,19 @@ class C17(Check):
         ci = np.cos(th)
         ct = np.sqrt(1 - (n1 / n2 * np.sin(th)) ** 2)
         fac = (n2 * ct) / (n1 * ci)
-        out.close('energy_s', np.abs(rs) ** 2 + fac * np.abs(ts) ** 2, np.ones(len(th)), atol=1e-12, n1=n1, n2=n2)
-        out.close('energy_p', np.abs(rp) ** 2 + fac * np.abs(tp) ** 2, np.ones(len(th)), atol=1e-12, n1=n1, n2=n2)
+        # cos(theta_t) = sqrt(1 - (n1/n2 sin theta)^2) loses eps / cos^2 near grazing incidence
+        at = 1e-12 + 4e-15 / np.minimum(ci, ct) ** 2
+        out.close('energy_s', np.abs(rs) ** 2 + fac * np.abs(ts) ** 2, np.ones(len(th)), rtol=1.0, scale=at, n1=n1, n2=n2)
+        out.close('energy_p', np.abs(rp) ** 2 + fac * np.abs(tp) ** 2, np.ones(len(th)), rtol=1.0, scale=at, n1=n1, n2=n2)
         # textbook amplitudes (magnitudes: sign conventions differ between texts)
         rs_ref = (n1 * ci - n2 * ct) / (n1 * ci + n2 * ct)
         rp_ref = (n2 * ci - n1 * ct) / (n2 * ci + n1 * ct)
         ts_ref = 2 * n1 * ci / (n1 * ci + n2 * ct)
         tp_ref = 2 * n1 * ci / (n2 * ci + n1 * ct)
-        out.close('fresnel_rs', np.abs(rs), np.abs(rs_ref), atol=1e-12)
-        out.close('fresnel_rp', np.abs(rp), np.abs(rp_ref), atol=1e-12)
-        out.close('fresnel_ts', np.abs(ts), np.abs(ts_ref), atol=1e-12)
-        out.close('fresnel_tp', np.abs(tp), np.abs(tp_ref), atol=1e-12)
+        out.close('fresnel_rs', np.abs(rs), np.abs(rs_ref), rtol=1.0, scale=at)
+        out.close('fresnel_rp', np.abs(rp), np.abs(rp_ref), rtol=1.0, scale=at)
+        out.close('fresnel_ts', np.abs(ts), np.abs(ts_ref), rtol=1.0, scale=at)
+        out.close('fresnel_tp', np.abs(tp), np.abs(tp_ref), rtol=1.0, scale=at)
         # Brewster (last element if below the critical angle) and normal incidence
         if len(th) >= 2 and abs(th[-1] - math.atan(n2 / n1)) < 1e-15:
             out.close('brewster_rp_zero', abs(rp[-1]), 0.0, atol=1e-12, n1=n1, n2=n2)
